@@ -205,6 +205,7 @@ Cond(w, v, c) ==
     [] c = "hexhash"     -> v # "bad"
     [] c = "owned"       -> Vis(w) /\ w.f.free >= 1
     [] c = "node"        -> w.node
+    [] c = "myaddr"      -> Vis(w)
 
 \* the effect of a committed batch on the facts
 Effect(w, e) ==
@@ -278,7 +279,11 @@ Prog(m, v) ==
     [] m = "create_slatepack_message" ->       \* owner.rs:153: the sender address is derived only when sender_index is given
          IF v = "nosender" THEN <<>> ELSE <<Inst, Kc>>
     [] m \in {"slate_from_slatepack_message", "decode_slatepack_message"} ->   \* owner.rs:180 / 231: a key per secret index
-         IF v = "noidx" THEN <<>> ELSE <<Inst, Kc>>
+         IF v = "noidx" THEN <<>>
+         ELSE <<Inst, Kc>> \o                                                 \* the key is derived below the ACTIVE account:
+              (IF m = "slate_from_slatepack_message" /\ v = "enc"              \* a message encrypted to the default account's
+               THEN <<Pre("myaddr", "err:other:SlatepackDecryption")>>         \* address opens only while that account is active;
+               ELSE <<>>)                                                     \* decode_ falls back to the undecrypted view
     [] m = "verify_payment_proof" ->           \* owner.rs:1191: keychain under the lock, then the kernel lookup
          <<Inst, Kc, Pre("kernel", "err:proof")>>
     [] m = "build_output" ->                   \* owner.rs:1339: keychain, next_available_key
